@@ -24,6 +24,10 @@ type vWorld struct {
 	b     [vMaxRows]vCell
 	count int
 	dense int // anonymous live rows (dense pre-state), not tracked individually
+	// allowDelWrite lets a transaction delete a row it also stores to / inserted (the
+	// KF-delete-and-write region); off by default
+	allowDelWrite bool
+	kfDelWrite    bool // the region was entered at least once (sticky)
 	// pending effects of the running transaction
 	pn    int
 	pOp   [8]int // 0 put a, 1 merge a, 2 put b, 3 delete, 4 insert with a, 5 insert with b only
@@ -184,6 +188,19 @@ func (w *vWorld) oneOp(txn *Txn, menu int, maxLen int) {
 		})
 		w.pend(2, s, num, "")
 	case 3:
+		if !w.allowDelWrite {
+			for i := 0; i < w.pn; i++ {
+				if w.pRow[i] == s && w.pOp[i] != 3 {
+					return // see allowDelWrite
+				}
+			}
+		} else {
+			for i := 0; i < w.pn; i++ {
+				if w.pRow[i] == s && w.pOp[i] != 3 {
+					w.kfDelWrite = true
+				}
+			}
+		}
 		ok := txn.DeleteAt(w.off[s])
 		if !w.fresh[s] {
 			vndAssert(ok == w.live[s], "DeleteAt result differs from committed liveness")
